@@ -1,7 +1,9 @@
 import PytezosModel.Proofs.InterpProgressStep
+set_option linter.unusedSectionVars false   -- `[Mode]` is a section variable of every lemma here; some do not use it
 /-! Progress for the right-comb instructions (`PAIR n`, `UNPAIR n`, `GET n`, `UPDATE n`), and the collection of all the
 rules without sub-programs: `step_safe`. -/
 namespace Interp
+variable [Mode]
 open Typing
 
 theorem pairN_safe : ∀ (n : Nat) (st : List Val) (p : Ty × List Ty), GoodStack st → pairNTy n (st.map typeOf) = some p →
